@@ -61,11 +61,19 @@ class Query:
             return "columns differ: SQL %s, VTL reference %s" % (t, o)
         return None
 
+    def _spec(self, f):
+        """specialise a formula to the shard's fixed indicator (substitute + simplify kills the other CASE branches)"""
+        ind = self.case.opts.get("ind")
+        if not ind:
+            return f
+        subs = [(v, z3.StringVal(ind)) for v in self.case.ctx.input_vars if str(v).endswith(".ind")]
+        return _simp(z3.substitute(f, *subs)) if subs else f
+
     def solver(self):
         s = z3.Solver()
         s.set("timeout", self.timeout_ms)
-        s.add(*self.base)
-        s.add(z3.Not(self.nonfinite))
+        s.add(*[self._spec(b) for b in self.base])
+        s.add(self._spec(z3.Not(self.nonfinite)))
         return s
 
     def bad(self):
@@ -78,7 +86,7 @@ class Query:
 
     def check(self, extra=()):
         s = self.solver()
-        s.add(self.bad())
+        s.add(self._spec(self.bad()))
         s.add(*extra)
         t = time.time()
         r = s.check()
@@ -87,7 +95,7 @@ class Query:
 
     def reach(self):
         s = self.solver()
-        s.add(z3.Or(*[r.present for r in self.T.rows]) if self.T.rows else FALSE)
+        s.add(self._spec(z3.Or(*[r.present for r in self.T.rows])) if self.T.rows else FALSE)
         t = time.time()
         r = s.check()
         return str(r), time.time() - t
@@ -237,8 +245,12 @@ def ceval(term, subs, memo=None):
 
 def model_subs(case, model):
     subs = []
+    ind = case.opts.get("ind")
     for v in case.ctx.input_vars:
-        subs.append((v, model.eval(v, model_completion=True)))
+        if ind and str(v).endswith(".ind"):
+            subs.append((v, z3.StringVal(ind)))      # the shard's fixed indicator (substituted away in the query)
+        else:
+            subs.append((v, model.eval(v, model_completion=True)))
     return subs
 
 
@@ -269,10 +281,16 @@ def expected_rows(case, O, subs):
             if z3.is_true(nl):
                 d[c] = None
                 continue
+            if sv.kind == "tp":
+                parts = [ceval(sv.fields[k].val, subs, memo) for k in ("year", "ind", "num")]
+                if any(x is None for x in parts):
+                    return None
+                d[c] = ["tp"] + [_f(x) for x in parts]
+                continue
             v = ceval(sv.val, subs, memo)
             if v is None:
                 return None
-            d[c] = _f(v)
+            d[c] = ["date", _f(v)] if sv.kind == "date" else _f(v)
         out.append(d)
     return out
 
@@ -307,9 +325,44 @@ def frames(case, subs):
 ANY = "<any>"
 
 
+def _as_tp(v):
+    import re
+    if isinstance(v, (list, tuple)) and v and v[0] == "tp":
+        y, i, n = v[1], v[2], v[3]
+        return (y, i, 1 if i == "A" else n)
+    if isinstance(v, str):
+        m = re.fullmatch(r"(\d{4})A?", v)
+        if m:
+            return (int(m.group(1)), "A", 1)
+        m = re.fullmatch(r"(\d{4})-?([SQMWD])(\d+)", v)
+        if m:
+            return (int(m.group(1)), m.group(2), int(m.group(3)))
+    return None
+
+
+def _as_days(v):
+    import datetime
+    if isinstance(v, (list, tuple)) and v and v[0] == "date":
+        return int(v[1])
+    if isinstance(v, str):
+        try:
+            return (datetime.date.fromisoformat(v[:10]) - datetime.date(1970, 1, 1)).days
+        except ValueError:
+            return None
+    if isinstance(v, (datetime.datetime, datetime.date)):
+        d = v.date() if isinstance(v, datetime.datetime) else v
+        return (d - datetime.date(1970, 1, 1)).days
+    return None
+
+
 def _close(a, b):
     if a == ANY or b == ANY:
         return True
+    for x, y in ((a, b), (b, a)):
+        if isinstance(x, (list, tuple)) and x and x[0] == "tp":
+            return y is not None and _as_tp(x) == _as_tp(y)
+        if isinstance(x, (list, tuple)) and x and x[0] == "date":
+            return y is not None and _as_days(x) == _as_days(y)
     if a is None or b is None:
         return a is None and b is None
     if isinstance(a, bool) or isinstance(b, bool):
